@@ -360,6 +360,8 @@ fn sc_zero_fee(t: &mut Tracer) {
     w.create_farm(&o, &lp, Some(1), Some(9), coin(8000, "uweth"), Some("f2".into()), &[coin(777, "uusd"), coin(8000, "uweth")]);
     w.create_farm(&o, &lp, Some(1), Some(9), coin(8000, "uom"), Some("f3".into()), &[coin(8000, "uom")]);
     w.create_farm(&o, &lp, Some(1), Some(9), coin(8000, "uom"), Some("f4".into()), &[coin(8001, "uom")]);
+    w.create_farm(&o, &lp, Some(1), Some(9), coin(8000, "uom"), Some("f5".into()), &[coin(1000, "uom")]); // declared 8000, attached 1000
+    w.create_farm(&o, &lp, Some(1), Some(9), coin(8000, "uom"), Some("f6".into()), &[coin(7999, "uom")]);
 }
 
 /// C11: fee configurations and over/under payment; farm limit; expiry and auto close
